@@ -29,6 +29,7 @@ HARNESS = ["zz_verif_relay_test.go"]
 NREP = 40                 # re-executions of a rejected script (racy defects need the schedule again)
 COMPLETE_TIMEOUT_MS = 120000   # "complete": must exceed the per-call watchdog, so that a relay that
 WATCHDOG_MS = 30000            # waits for a consumer nobody serves is seen as blocked, not as slow
+SINGLE_TIMEOUT = 150           # seconds TLC may spend on one scenario's trace before it is set aside
 
 
 def tla_set(xs):
@@ -48,7 +49,7 @@ def profiles(thorough):
         # w1 holds k1, w2 holds k2 (each other's frames lose one series); w3 holds nothing
         # while w1 is open and becomes k1's holder afterwards
         "writers": [
-            {"id": "w1", "keys": ["k1", "k2"], "auth": {"k1": 200, "k2": 100}, "mode": "stream", "sync": False, "late": False},
+            {"id": "w1", "keys": ["k1", "k2"], "auth": {"k1": 200, "k2": 100}, "mode": "stream", "sync": True, "late": False},
             {"id": "w2", "keys": ["k1", "k2"], "auth": {"k1": 100, "k2": 200}, "mode": "stream", "sync": False, "late": True},
             {"id": "w3", "keys": ["k1"], "auth": {"k1": 150}, "mode": "stream", "sync": True, "late": False},
         ],
@@ -57,19 +58,23 @@ def profiles(thorough):
         "maxseq": 4, "minseq": 2, "maxresub": 2,
     }
     p2 = {
-        "name": "persist", "B": 2, "outcap": 1, "pad": 0,
+        "name": "split", "B": 2, "outcap": 1, "pad": 0,
         "keys": [{"id": "k1", "kind": "virtual"}, {"id": "k3", "kind": "index"},
-                 {"id": "k4", "kind": "data", "index": "k3"}],
-        # w1 persists the indexed group with the higher authority; w2 (stream only) writes the
-        # same group unauthorized until w1 closes; w3 a plain virtual-channel writer
+                 {"id": "k4", "kind": "data", "index": "k3"}, {"id": "k5", "kind": "data", "index": "k3"}],
+        # an indexed, persisted group under PARTIAL authority: w1 (persists) holds the index k3 and k5
+        # but not k4; w2 (stream only) holds k4 but not the index, so its whole group is held back
+        # until w1 closes and it takes over; w3 writes the data channel k5 ONLY, below w1;
+        # w4 a plain virtual-channel writer with several requests in flight
         "writers": [
-            {"id": "w1", "keys": ["k3", "k4"], "auth": {"k3": 200, "k4": 200}, "mode": "persist", "sync": True, "late": False},
-            {"id": "w2", "keys": ["k3", "k4"], "auth": {"k3": 100, "k4": 100}, "mode": "stream", "sync": True, "late": False},
-            {"id": "w3", "keys": ["k1"], "auth": {"k1": 255}, "mode": "stream", "sync": False, "late": False},
+            {"id": "w1", "keys": ["k3", "k4", "k5"], "auth": {"k3": 200, "k4": 100, "k5": 200}, "mode": "persist", "sync": True, "late": False},
+            {"id": "w2", "keys": ["k3", "k4"], "auth": {"k3": 100, "k4": 200}, "mode": "stream", "sync": True, "late": False},
+            {"id": "w3", "keys": ["k5"], "auth": {"k5": 100}, "mode": "stream", "sync": True, "late": False},
+            {"id": "w4", "keys": ["k1"], "auth": {"k1": 255}, "mode": "stream", "sync": False, "late": False},
         ],
+        "close_after": {"w1": ["w3"]},
         "streamers": ["s1", "s2"], "sleepy_lossy": ["s2"],
-        "subs": [["k4"], ["k1", "k3"], ["k1", "k3", "k4"]], "opensubs": [["k1", "k3", "k4"], ["k3", "k4"]],
-        "maxseq": 4, "minseq": 2, "maxresub": 2,
+        "subs": [["k4", "k5"], ["k1", "k3"], ["k1", "k3", "k4", "k5"]], "opensubs": [["k1", "k3", "k4", "k5"], ["k3", "k4", "k5"]],
+        "maxseq": 3, "minseq": 2, "maxresub": 2,
     }
     ps = [p1, p2]
     if thorough:
@@ -94,15 +99,33 @@ def auth_def(p):
     return "[w \\in Writers |-> CASE " + " [] ".join(rows) + "]"
 
 
+def idx_def(p):
+    rows = ['k = "%s" -> "%s"' % (k["id"], k["index"]) for k in p["keys"] if k.get("index")]
+    if not rows:
+        return '[k \\in Keys |-> "none"]'
+    return "[k \\in Keys |-> CASE " + " [] ".join(rows + ['OTHER -> "none"']) + "]"
+
+
+def close_after_def(p):
+    ca = p.get("close_after", {})
+    rows = ['w = "%s" -> %s' % (w, tla_set(v)) for w, v in ca.items()]
+    if not rows:
+        return "[w \\in Writers |-> {}]"
+    return "[w \\in Writers |-> CASE " + " [] ".join(rows + ["OTHER -> {}"]) + "]"
+
+
 def mc_module(name, base, p):
     return """---- MODULE %s ----
 EXTENDS %s
 MC_WKeys == %s
 MC_Auth == %s
+MC_Idx == %s
+MC_CloseAfter == %s
 MC_Subs == %s
 MC_OpenSubs == %s
 ====
-""" % (name, base, wkeys_def(p), auth_def(p), tla_setset(p["subs"]), tla_setset(p["opensubs"]))
+""" % (name, base, wkeys_def(p), auth_def(p), idx_def(p), close_after_def(p), tla_setset(p["subs"]),
+       tla_setset(p["opensubs"]))
 
 
 def consts(p, **kw):
@@ -117,7 +140,7 @@ def consts(p, **kw):
     )
     d.update(kw)
     lines = ["  %s = %s" % (k, v) for k, v in d.items()]
-    lines += ["  WKeys <- MC_WKeys", "  Auth <- MC_Auth", "  Subs <- MC_Subs", "  OpenSubs <- MC_OpenSubs"]
+    lines += ["  WKeys <- MC_WKeys", "  Auth <- MC_Auth", "  Idx <- MC_Idx", "  Subs <- MC_Subs", "  OpenSubs <- MC_OpenSubs"]
     return "\n".join(lines)
 
 
@@ -125,12 +148,18 @@ SAFETY = "TypeOK Subsequence OnlyAuthorized OnlySubscribed ReadyGetsAll ReadyGet
 
 
 # ------------------------------------------------------------------ 1. design checks
-def design_cast(writers, streamers, subs, opensubs, maxseq, maxresub, B=1, late=()):
+def design_cast(writers, streamers, subs, opensubs, maxseq, maxresub, B=1, late=(), split=False):
     ws = {
         "w1": {"id": "w1", "keys": ["k1", "k2"], "auth": {"k1": 2, "k2": 2}, "late": "w1" in late},
         "w2": {"id": "w2", "keys": ["k1"], "auth": {"k1": 1, "k2": 0}, "late": "w2" in late},
     }
-    return {"keys": [{"id": "k1"}, {"id": "k2"}], "writers": [ws[w] for w in writers], "streamers": streamers,
+    keys = [{"id": "k1"}, {"id": "k2"}]
+    if split:
+        # k1 indexes k2; w1 holds the index but not the data channel, w2 the data channel but not the index
+        keys = [{"id": "k1"}, {"id": "k2", "index": "k1"}]
+        ws = {"w1": {"id": "w1", "keys": ["k1", "k2"], "auth": {"k1": 2, "k2": 1}, "late": False},
+              "w2": {"id": "w2", "keys": ["k1", "k2"], "auth": {"k1": 1, "k2": 2}, "late": False}}
+    return {"keys": keys, "writers": [ws[w] for w in writers], "streamers": streamers,
             "subs": subs, "opensubs": opensubs, "maxseq": maxseq, "maxresub": maxresub, "B": B, "outcap": 1}
 
 
@@ -175,6 +204,9 @@ def design(ctx, thorough):
     # a writer with more authority opens (gate by gate) while the other one is writing
     go("ql", design_cast(["w1", "w2"], ["s1"], [["k1"]], k12, 2, 0, late=("w1",)), Ready=tla_set(["s1"]),
        CloseModes=tla_set(["graceful"]))
+    # an indexed group under split authority (index holder / data-channel holder), hand-over at close
+    go("qg", design_cast(["w1", "w2"], ["s1"], [["k2"]], k12, 2, 0, split=True), Ready=tla_set(["s1"]),
+       CloseModes=tla_set(["graceful"]))
     live = "WritersProgress CloseCompletes OpenCompletes ResubCompletes"
     go("live", design_cast(["w1"], ["s1", "s2"], [["k2"]], k12, 1, 0), props=live + " ReadyEventually",
        Ready=tla_set(["s1"]), CloseModes=tla_set(["graceful"]))
@@ -204,7 +236,7 @@ def design(ctx, thorough):
 
 # ------------------------------------------------------------------ 2. scripts
 def gen_scripts(ctx, p, n, tag):
-    cfg = "SPECIFICATION GSpec\nCONSTANTS\n%s\n  MinSeq = %d\nINVARIANTS Emit\nCHECK_DEADLOCK FALSE\n" % (
+    cfg = "SPECIFICATION GSpec\nCONSTANTS\n%s\n  MinSeq = %d\n  CloseAfter <- MC_CloseAfter\nINVARIANTS Emit\nCHECK_DEADLOCK FALSE\n" % (
         consts(p, AllowOrphan="TRUE", Ready=tla_set(p["streamers"][:1])), p["minseq"])
     mod = "RelayGenMC_" + tag
     r = ctx.tlc(AREA, mod, tag + ".cfg", workers=2, timeout=600, tag="gen_" + tag,
@@ -341,8 +373,8 @@ def tlc_trace(ctx, p, mode, items, tag, timeout=1800):
         src = f.read()
     name = "trace_%s.ndjson" % tag
     src = src.replace("MODULE RelayTrace", "MODULE " + mod).replace('"trace.ndjson"', '"%s"' % name)
-    src = re.sub(r"\n=====+\s*$", lambda m: "\nMC_WKeys == %s\nMC_Auth == %s\nMC_Subs == {}\nMC_OpenSubs == {}\n====\n" % (
-        wkeys_def(p), auth_def(p)), src)
+    src = re.sub(r"\n=====+\s*$", lambda m: "\nMC_WKeys == %s\nMC_Auth == %s\nMC_Idx == %s\nMC_Subs == {}\nMC_OpenSubs == {}\n====\n" % (
+        wkeys_def(p), auth_def(p), idx_def(p)), src)
     r = ctx.tlc(AREA, mod, tag + ".cfg", workers=1, timeout=timeout, tag="tv_" + tag, expect_violation=True, heap="3g", deque=True,
                 files={name: "\n".join(lines) + "\n", tag + ".cfg": trace_cfg(p, mode), mod + ".tla": src})
     st = {"distinct": r.distinct, "generated": r.generated}
@@ -396,7 +428,12 @@ def validate(ctx, p, mode, items, tag, stop_after=4, chunk=60):
 
     def one(a):
         n, it = a
-        return it, tlc_trace(ctx, p, mode, [it], "%s_s%d" % (tag, n), timeout=1800)
+        try:
+            return it, tlc_trace(ctx, p, mode, [it], "%s_s%d" % (tag, n), timeout=SINGLE_TIMEOUT)
+        except vlib.Inconclusive as e:
+            if "TLC timeout" not in str(e):
+                raise
+            return it, ({"distinct": 0, "generated": 0}, "undecided")
 
     todo = list(enumerate(singles))
     while todo and len([r for r in rejected if classify(p, mode, r[1], r[2])[0]]) < stop_after:
@@ -407,6 +444,10 @@ def validate(ctx, p, mode, items, tag, stop_after=4, chunk=60):
                 stats["generated"] += st["generated"]
                 if bad is None:
                     stats["accepted"] += 1
+                elif bad == "undecided":
+                    # the depth-first search did not find an explanation nor exhaust the alternatives in
+                    # time: no verdict about this trace (counted, never reported)
+                    stats["undecided"] = stats.get("undecided", 0) + 1
                 else:
                     rejected.append((it[0], it[1], bad[1]))
     return stats, rejected
@@ -455,7 +496,13 @@ def classify(p, mode, evs, idx):
                 return True
         return False
 
+    index_of = {k["id"]: k.get("index") for k in p["keys"]}
+
     def maybe_unauth(w, k, a, b):
+        # a writer that writes the group's index and loses it streams none of the group
+        i = index_of.get(k)
+        if i and i in W[w]["keys"] and maybe_unauth(w, i, a, b):
+            return True
         for o in W.values():
             if o["id"] == w or k not in o["keys"] or o["auth"].get(k, 0) <= W[w]["auth"].get(k, 0):
                 continue
@@ -602,6 +649,7 @@ def one_config(ctx, p, mode, scripts, rnd, tag, race, cov):
     cov["tv_states"] += stats["distinct"]
     cov["tv_transitions"] += stats["generated"]
     cov["accepted"] += stats["accepted"]
+    cov["undecided"] = cov.get("undecided", 0) + stats.get("undecided", 0)
     cov["by_config"]["%s/%s" % (p["name"], mode)] = {"scenarios": len(scenarios), "accepted": stats["accepted"],
                                                      "rejected": len(rejected), "harness_s": round(t_h, 1),
                                                      "tlc_s": round(t_v, 1), "tlc_states": stats["distinct"]}
@@ -738,12 +786,15 @@ def run(ctx):
     if missing and not ctx.violations:
         raise vlib.Inconclusive("mechanisms never exercised: %s" % missing)
     total = sum(c["scenarios"] for c in cov["by_config"].values())
+    if cov.get("undecided", 0) > max(3, total // 50) and not ctx.violations:
+        raise vlib.Inconclusive("%d of %d traces could not be decided by TLC within %d s each" % (
+            cov["undecided"], total, SINGLE_TIMEOUT))
     coverage = {
         "states": states, "transitions": trans,
         "traces_validated_against_impl": cov["accepted"],
         "samples": cov["samples"], "exhaustive": False,
         "design_runs": runs,
-        "trace_validation": {"states": cov["tv_states"], "transitions": cov["tv_transitions"], "scenarios": total,
+        "trace_validation": {"states": cov["tv_states"], "transitions": cov["tv_transitions"], "scenarios": total, "undecided": cov.get("undecided", 0),
                              "by_config": cov["by_config"]},
         "mechanisms": m, "max_call_us": cov["max_call_us"],
         "probe_dbclose_open_writer": cov.get("probe_dbclose_open_writer"),
